@@ -435,10 +435,24 @@ pub fn run(ctx: &mut Ctx) {
                 continue;
             }
             let v = a.expected();
-            for res in [v.serialize(), TlsMessage::Handshake(v.clone()).serialize(), TlsPlaintext { hdr: TlsRecordHeader { record_type: TlsRecordType(0x16), version: TlsVersion(0x0303), len: 0 }, msg: vec![TlsMessage::Handshake(AHs::HelloRequest.expected()), TlsMessage::Handshake(v.clone())] }.serialize()] {
+            for (k, res) in [v.serialize(), TlsMessage::Handshake(v.clone()).serialize(), TlsPlaintext { hdr: TlsRecordHeader { record_type: TlsRecordType(0x16), version: TlsVersion(0x0303), len: 0 }, msg: vec![TlsMessage::Handshake(AHs::HelloRequest.expected()), TlsMessage::Handshake(v.clone())] }.serialize()].into_iter().enumerate() {
                 ctx.eval();
                 ctx.shape(&("nyi", a.variant_name()));
-                if is_nyi(&res) {
+                // a variant for which support has been ADDED is no longer "unsupported": bytes that are the
+                // exact reference encoding of the value are valid bytes, not a violation
+                let newly_supported = match (&res, k) {
+                    (Ok(b), 0) | (Ok(b), 1) => *b == a.to_bytes(),
+                    (Ok(b), _) => {
+                        let mut p = AHs::HelloRequest.to_bytes();
+                        p.extend(a.to_bytes());
+                        *b == record(0x16, 0x0303, &p)
+                    }
+                    _ => false,
+                };
+                if newly_supported {
+                    ctx.unjudged(&format!("serializer-now-supports:{}", a.variant_name()));
+                    ctx.count("nyi.messages");
+                } else if is_nyi(&res) {
                     ctx.count("nyi.messages");
                 } else {
                     ctx.violation(format!("c09:unsupported:{}:{}", a.variant_name(), if res.is_ok() { "bytes-produced" } else { "other-error" }), json!({"variant": a.variant_name(), "result": format!("{:.200?}", res)}));
@@ -448,7 +462,10 @@ pub fn run(ctx: &mut Ctx) {
         for m in [AMsg::Alert(2, 40), AMsg::App(vec![1, 2, 3]), AMsg::Heartbeat { ty: 1, payload: vec![1], padding: vec![] }] {
             let res = m.expected().serialize();
             ctx.eval();
-            if is_nyi(&res) {
+            if matches!(&res, Ok(b) if *b == m.to_bytes()) {
+                ctx.unjudged(&format!("serializer-now-supports:{}", kind(&m)));
+                ctx.count("nyi.messages");
+            } else if is_nyi(&res) {
                 ctx.count("nyi.messages");
             } else {
                 ctx.violation(format!("c09:unsupported:{}", kind(&m)), json!({"result": format!("{:.200?}", res)}));
@@ -463,6 +480,12 @@ pub fn run(ctx: &mut Ctx) {
             let res = gen_simple(gen_tls_extension(&v), Vec::new());
             ctx.eval();
             ctx.shape(&("nyi-ext", a.variant_name()));
+            if matches!(&res, Ok(b) if *b == a.to_bytes()) {
+                // support added and correct: not an unsupported value any more
+                ctx.unjudged(&format!("serializer-now-supports-extension:{}", a.variant_name()));
+                ctx.count("nyi.extensions");
+                continue;
+            }
             if is_nyi(&res) {
                 ctx.count("nyi.extensions");
             } else {
